@@ -229,7 +229,9 @@ def witness(failure, ctx):
     hdr = "03022307" + "00000100" + "00000000" + "0a000000" + "00000000"
     nop = "00000100"
     mm = "0e000300" + "00000000" + "01000000"
-    bins = {"empty": "", "short": "03022307", "hdr": hdr, "3inst": hdr + nop + mm + nop, "badop": hdr + nop + "ffff0100" + nop,
+    badmagic = "efbeadde" + hdr[8:]
+    swapped = "07230203" + hdr[8:]
+    bins = {"empty": "", "short": "03022307", "badmagic": badmagic, "swapped": swapped, "hdr": hdr, "3inst": hdr + nop + mm + nop, "badop": hdr + nop + "ffff0100" + nop,
             "zerowc": hdr + nop + "00000000"}
     n_inst_ok = {"hdr": 0, "3inst": 3, "badop": 1, "zerowc": 1}
     tried = 0
@@ -248,6 +250,10 @@ def witness(failure, ctx):
                 parse_err = None
                 if name in ("empty", "short"):
                     parse_err = "HeaderIncomplete"
+                elif name == "badmagic":
+                    parse_err = "HeaderIncorrect"
+                elif name == "swapped":
+                    parse_err = "EndiannessUnsupported"
                 else:
                     exp.append("header")
                     exp += ["inst"] * n_inst_ok[name]
